@@ -11,9 +11,9 @@ from symx.core import approx, approx_db
 
 setup = common.setup
 
-BAUDS = [32e9, 64e9, 42e9, 32e9]
-SLOTS = [50e9, 75e9, 50e9, 37.5e9]
-FREQS = [193.0e12, 193.1e12, 193.2e12, 193.3e12]
+BAUDS = [32e9, 64e9, 42e9, 32e9, 60e9, 28e9]
+SLOTS = [50e9, 75e9, 50e9, 37.5e9, 62.5e9, 37.5e9]
+FREQS = [193.0e12, 193.1e12, 193.2e12, 193.3e12, 193.4e12, 193.5e12]
 
 
 def lin(ctx, x_db):
@@ -138,7 +138,7 @@ def h_fused(ctx, k, props):
 
 
 def jobs_c01(tier):
-    ks = [1, 2, 3] if tier == 'quick' else [1, 2, 3, 4]
+    ks = [1, 2, 3] if tier == 'quick' else [1, 2, 3, 4, 5]
     js = []
     for k in ks[1:]:
         for pol, ov in (('pch', 'none'), ('psd', 'pch'), ('psw', 'psd')):
